@@ -240,6 +240,21 @@ func r052(c *an.Ctx) {
 			if call, ok := v.(*ssa.Call); ok && strings.HasSuffix(an.CalleeName(call), "FieldUpdater).fullMask") {
 				depU, depW = true, true
 			}
+			// a predicate handed to a library search (slices.ContainsFunc(mask.Paths, f.readOnly)): what its body reads
+			if body := an.ClosureFn(v); body != nil {
+				for _, g := range append(an.WithClosures(body), an.TransparentCalleesOf(body, 2)...) {
+					an.Instrs(g, func(in ssa.Instruction) {
+						if fa, isFA := in.(*ssa.FieldAddr); isFA {
+							switch _, _, f, _ := an.FieldOf(fa); f {
+							case "updateMask":
+								depU = true
+							case "writableFields":
+								depW = true
+							}
+						}
+					})
+				}
+			}
 			if in, ok := v.(ssa.Instruction); ok {
 				var ops []*ssa.Value
 				for _, op := range in.Operands(ops) {
